@@ -297,6 +297,12 @@ pub fn drive<S, F>(
     if cases == 0 {
         return;
     }
+    // debugging aid: run a single sub-check
+    if let Ok(only) = std::env::var("VERIF_ONLY_SUB") {
+        if only != sub {
+            return;
+        }
+    }
     let config = Config {
         cases: cases as u32,
         failure_persistence: None,
